@@ -113,6 +113,11 @@ class MA(MCallerHttp):
         """both mixins have a method of this name: python runs this one (the first base)"""
         return self.get_conn().post("/m/s", **kw)
 
+    @method_http(None, 'ca')
+    def call_nested(self, **kw):
+        """a wrapper of component 'ca' that only delegates to a wrapper of component 'cb'"""
+        return self.call_b(**kw)
+
 
 class MB(MCallerHttp):
     @method_http(None, 'cb')
@@ -271,7 +276,7 @@ def _run_history(ctx, rng, case):
         got.pop('x-request-id', None)
         for k, v in hdr.items():
             g = got.pop(k.lower(), None)
-            if k == 'Authorization':
+            if k == 'Authorization' and isinstance(v, tuple):
                 g = g.decode() if isinstance(g, bytes) else g
                 kind, cred = v
                 if g is None or not g.startswith(kind + " "):
@@ -304,7 +309,10 @@ def _run_history(ctx, rng, case):
             params = rng.choice([None, {}, {'a': 1, 'b': 'x y'}, {'q': 'é&='},
                                  [('tag', 'red'), ('tag', 'blue'), ('page', 1)], (('k', 'v'), ('k', 'v'))])
             data = rng.choice([None, "txt", b"\x00b", {'k': [1, 2]}, [1, "é"], "", 0])
-            headers = rng.choice([None, {}, {'X-A': '1'}, {'Content-Type': 'text/x', 'X-B': 'q'}])
+            headers = rng.choice([None, {}, {'X-A': '1'}, {'Content-Type': 'text/x', 'X-B': 'q'},
+                                  {'Authorization': 'Bearer stale-token', 'X-A': '2'}])
+            own_auth = bool(headers) and 'Authorization' in headers
+            layer_auth = any(a[0] == 'auth' for layer in lay for a in layer)
             keep = copy.deepcopy((params, data, headers))
             exp = expected(address, lay, path, verb.upper(), *copy.deepcopy(keep))
             steps.append([tag, verb, path, repr(params), repr(data), repr(headers)])
@@ -320,6 +328,11 @@ def _run_history(ctx, rng, case):
             try:
                 ret = getattr(c, verb)(path, params=params, data=data, headers=headers)
             except Exception as err:
+                if own_auth and layer_auth and len(op.reqs) == n_before:
+                    # the caller's own Authorization header meets an authenticating layer: refusing the request
+                    # is fine, sending it with the caller's value is not
+                    ctx.count("requests_with_conflicting_authorization_refused")
+                    return
                 fail("request-raises", {"step": tag, "type": type(err).__name__, "msg": str(err)[:150]})
             if len(op.reqs) != n_before + 1:
                 fail("not-exactly-one-request-sent", {"step": tag, "sent": len(op.reqs) - n_before})
@@ -397,6 +410,7 @@ def _run_history(ctx, rng, case):
                                                ("call_b", [], "m/b", "GET"),
                                                ("call_a", [[('prefix', '/cmpA')]], "/m/a", "POST"),
                                                ("call_same", [[('prefix', '/cmpA')]], "/m/s", "POST"),
+                                               ("call_nested", [], "m/b", "GET"),
                                                ("call_c", [], "/m/c", "PUT")):
                 del log[:]
                 steps.append([tag, name])
